@@ -28,15 +28,20 @@
                                  also the synchronous polarized mode
      C04_prints_admitted_core    the same with init_linear derived from acceptance: premises = parses, accepted, closed,
                                  core_src_b on the SOURCE program (C04_prints_admitted_polarized_core: both polarized modes)
+     C04_prints_admitted_drop    WEAKENING: the same for programs with `drop` (no split, one provider name per process),
+                                 Async mode, into Sax.v with its structural rules s_drop / s_gc (C04_refines_sax_drop)
+     C04_prints_admitted_all     CONTRACTION as well: every parsed, accepted, closed program with one provider name per declaration
+                                 (drop, split, all connectives), both polarized modes (C04_refines_sax_all: one model step is zero or
+                                 one step of Sax.v with its structural rules)
    What rests on the correspondence only: that the real interpreter's prints and their order are the
-   model's (suite `run`); results for programs with drop / split / multi-provider declarations; results in
+   model's (suite `run`); results for programs with multi-name provider declarations (prc[a,b]); results in
    the non-polarized mode; uniqueness of the multiset. *)
 From stdpp Require Import gmap strings.
 Require Import Grits.Base Grits.Forms Grits.STypes Grits.Runtime.
 Require Import Grits.spec.Sax Grits.proofs.Causality Grits.proofs.SaxRefine Grits.proofs.SaxInv Grits.proofs.C04Examples.
 Require Import Grits.Expand Grits.TcTop Grits.spec.RtTyping Grits.spec.Topo Grits.proofs.RtTheorems Grits.proofs.RtTcSyn
-               Grits.proofs.TopoLin Grits.proofs.TopoStep Grits.proofs.TopoReach Grits.proofs.AsyncSync Grits.proofs.SaxTyped
-               Grits.proofs.InitAccept Grits.proofs.SaxAccept.
+               Grits.proofs.TopoLin Grits.proofs.TopoStep Grits.proofs.TopoReach Grits.proofs.AsyncSync Grits.proofs.SaxTyped Grits.proofs.DeterminismAll
+               Grits.proofs.InitAccept Grits.proofs.SaxAccept Grits.proofs.InvAll Grits.proofs.SaxDrop Grits.proofs.SaxSplit.
 
 Theorem C04_trace_causal : forall md (p : program) fuel pick r tr,
   exec_trace fuel pick md (p_types p) (p_funs p) (init_config p) [] = (r, tr) ->
@@ -152,6 +157,104 @@ Theorem C04_prints_admitted_core_text : forall txt, c04_core_text txt = true ->
       (labels (res_config (exec_run fuel pick md (p_types p') (p_funs p') (init_config p')))) C'.
 Proof. exact prints_admitted_core_text. Qed.
 
+(* ------------------------------------------------------------------ WEAKENING (proofs/SaxDrop.v): programs with `drop`
+   (no split, one provider name per process), Async mode, as a weak simulation into spec/Sax.v WITH
+   its structural rules: `drop x; k` is s_drop (the droppable forward the interpreter spawns is the
+   pending request drop(x)); posting the GC request is no step; a droppable forward that receives a
+   positive message, and a process that receives the GC request on its own channel, are s_gc — the
+   request is passed on to every channel the dropped object uses.  Side conditions from a8's InvX. *)
+Theorem C04_refines_sax_drop : forall D F teq, teq_laws D teq -> funs_typed D F teq ->
+  forall c self c', InvX D F teq c -> DropCfg c -> step Async D F c (Run self) = SStep c' ->
+  exists ls, ((ls = [] /\ α c ≡ₚ α c') \/ sax_step F true (α c) ls (α c')) /\ labels c' = labels c ++ ls.
+Proof. exact refines_drop_step. Qed.
+
+Theorem C04_dropcfg_step : forall D F c self c',
+  nosplit_funs F -> Topo c -> DropCfg c -> step Async D F c (Run self) = SStep c' -> DropCfg c'.
+Proof. exact dropcfg_step. Qed.
+
+Theorem C04_prints_admitted_drop : forall txt p p',
+  parse_string txt = POk p -> typecheck p = Accept p' -> in_fragment p' -> nosplit_program p' = true ->
+  forall fuel pick, exists C',
+    sax_steps (p_funs p') true (sax_init p')
+      (labels (res_config (exec_run fuel pick Async (p_types p') (p_funs p') (init_config p')))) C'.
+Proof. exact prints_admitted_drop. Qed.
+
+Theorem C04_prints_admitted_drop_polarized : forall md txt p p',
+  is_np md = false ->
+  parse_string txt = POk p -> typecheck p = Accept p' -> in_fragment p' -> nosplit_program p' = true ->
+  forall fuel pick, exists C',
+    sax_steps (p_funs p') true (sax_init p')
+      (labels (res_config (exec_run fuel pick md (p_types p') (p_funs p') (init_config p')))) C'.
+Proof. exact prints_admitted_drop_md. Qed.
+
+(* the first sentence of C04 for contraction-free programs (linear connectives + weakening): the labels of a
+   terminating run are printed by the reference semantics, and every schedule prints the same multiset *)
+Theorem C04_results_unique_admitted : forall md txt p p' pick1 f1 t1,
+  is_np md = false ->
+  parse_string txt = POk p -> typecheck p = Accept p' -> in_fragment p' -> nosplit_program p' = true ->
+  exec_run f1 pick1 md (p_types p') (p_funs p') (init_config p') = RQuiescent t1 ->
+  (exists C', sax_steps (p_funs p') true (sax_init p') (labels t1) C') /\
+  (forall pick2 f2, (f1 <= f2)%nat ->
+     exists t2, exec_run f2 pick2 md (p_types p') (p_funs p') (init_config p') = RQuiescent t2 /\ labels t2 ≡ₚ labels t1).
+Proof. exact results_unique_admitted. Qed.
+
+Theorem C04_prints_admitted_drop_text : forall txt, c04_drop_text txt = true ->
+  exists p p', parse_string txt = POk p /\ typecheck p = Accept p' /\
+  forall fuel pick, exists C',
+    sax_steps (p_funs p') true (sax_init p')
+      (labels (res_config (exec_run fuel pick Async (p_types p') (p_funs p') (init_config p')))) C'.
+Proof. exact prints_admitted_drop_text. Qed.
+
+Example C04_ex_drop :
+  c04_drop_text RtTheorems.example_drop_text = true /\ c04_drop_text DeterminismAll.example_drop_text = true.
+Proof. vm_compute. split; reflexivity. Qed.
+
+(* ------------------------------------------------------------------ CONTRACTION (proofs/SaxSplit.v): `split`, the FWD request with two
+   providers, DUP.  `<x,y> <- split b; k` is s_split (the two-provider forward the interpreter spawns is the
+   pending request split(c1,c2,b)); posting the request is no step; the positive forward receiving a message, and
+   a process adopting the two providers on its own channel, are s_copy — the process that now has two providers
+   is read as the copies its DUP step creates, so the DUP step itself is no step.  With weakening and the
+   linear rules: EVERY step of every configuration whose provider lists have length one or two. *)
+Theorem C04_refines_sax_all : forall D F teq, teq_laws D teq -> funs_typed D F teq ->
+  forall c self c', InvX D F teq c -> SplitCfg c -> step Async D F c (Run self) = SStep c' ->
+  exists ls, ((ls = [] /\ α c ≡ₚ α c') \/ sax_step F true (α c) ls (α c')) /\ labels c' = labels c ++ ls.
+Proof. exact refines_all_step. Qed.
+
+Theorem C04_splitcfg_step : forall D F c self c',
+  Topo c -> SplitCfg c -> step Async D F c (Run self) = SStep c' -> SplitCfg c'.
+Proof. exact splitcfg_step. Qed.
+
+(* ALL parsed, accepted, closed programs with one provider name per declaration (drop, split, every connective),
+   both polarized modes: no premise about the annotated program beyond closedness and the shape of the declarations *)
+Theorem C04_prints_admitted_all : forall md txt p p',
+  is_np md = false ->
+  parse_string txt = POk p -> typecheck p = Accept p' -> in_fragment p' -> single_decls p' = true ->
+  forall fuel pick, exists C',
+    sax_steps (p_funs p') true (sax_init p')
+      (labels (res_config (exec_run fuel pick md (p_types p') (p_funs p') (init_config p')))) C'.
+Proof. exact prints_admitted_all. Qed.
+
+Theorem C04_prints_admitted_all_text : forall txt, c04_all_text txt = true ->
+  exists p p', parse_string txt = POk p /\ typecheck p = Accept p' /\
+  forall md, is_np md = false -> forall fuel pick, exists C',
+    sax_steps (p_funs p') true (sax_init p')
+      (labels (res_config (exec_run fuel pick md (p_types p') (p_funs p') (init_config p')))) C'.
+Proof. exact prints_admitted_all_text. Qed.
+
+Theorem C04_results_unique_admitted_all : forall md txt p p' pick1 f1 t1,
+  is_np md = false ->
+  parse_string txt = POk p -> typecheck p = Accept p' -> in_fragment p' -> single_decls p' = true ->
+  exec_run f1 pick1 md (p_types p') (p_funs p') (init_config p') = RQuiescent t1 ->
+  (exists C', sax_steps (p_funs p') true (sax_init p') (labels t1) C') /\
+  (forall pick2 f2, (f1 <= f2)%nat ->
+     exists t2, exec_run f2 pick2 md (p_types p') (p_funs p') (init_config p') = RQuiescent t2 /\ labels t2 ≡ₚ labels t1).
+Proof. exact results_unique_admitted_all. Qed.
+
+Example C04_ex_all :
+  c04_all_text RtTheorems.example_split_text = true /\ c04_all_text RtTheorems.example_drop_text = true /\
+  c04_all_text ex_text = true.
+Proof. vm_compute. repeat split; reflexivity. Qed.
+
 Theorem C04_tres_from_typing : forall D F teq, teq_laws D teq -> funs_typed D F teq ->
   forall Δ c, cfg_typed D F teq Δ c -> Topo c -> tres D c.
 Proof. exact tres_typed_topo. Qed.
@@ -189,7 +292,9 @@ Theorem C04_prints_admitted_if_inv_preserved : forall D F,
                (labels (res_config (exec_run fuel pick Async D F (init_config p)))) C'.
 Proof. exact prints_admitted_partial. Qed.
 
-Theorem C04_alpha_init : forall p : program, α (init_config p) ≡ₚ sax_init p.
+Theorem C04_alpha_init : forall p : program,
+  (forall q pr, procs (init_config p) !! q = Some pr -> exists n, pr_provs pr = [n]) ->
+  α (init_config p) ≡ₚ sax_init p.
 Proof. exact alpha_init. Qed.
 
 Theorem C04_prints_admitted_checked : forall fuel pick D F c r,
@@ -199,6 +304,7 @@ Theorem C04_prints_admitted_checked : forall fuel pick D F c r,
 Proof. exact prints_admitted_checked. Qed.
 
 Theorem C04_prints_admitted_checked_init : forall fuel pick (p : program) r,
+  single_cfg_b (init_config p) = true ->
   exec_checked fuel pick (p_types p) (p_funs p) (init_config p) = Some r ->
   exec_run fuel pick Async (p_types p) (p_funs p) (init_config p) = r /\
   sax_steps (p_funs p) false (sax_init p) (labels (res_config r)) (α (res_config r)).
@@ -247,6 +353,19 @@ Print Assumptions C04_prints_admitted_core.
 Print Assumptions C04_prints_admitted_polarized_core.
 Print Assumptions C04_prints_admitted_core_text.
 Print Assumptions C04_ex_core.
+Print Assumptions C04_refines_sax_drop.
+Print Assumptions C04_dropcfg_step.
+Print Assumptions C04_prints_admitted_drop.
+Print Assumptions C04_prints_admitted_drop_polarized.
+Print Assumptions C04_results_unique_admitted.
+Print Assumptions C04_prints_admitted_drop_text.
+Print Assumptions C04_ex_drop.
+Print Assumptions C04_refines_sax_all.
+Print Assumptions C04_splitcfg_step.
+Print Assumptions C04_prints_admitted_all.
+Print Assumptions C04_prints_admitted_all_text.
+Print Assumptions C04_results_unique_admitted_all.
+Print Assumptions C04_ex_all.
 Print Assumptions C04_tres_from_typing.
 Print Assumptions C04_core_invariant_gives_Inv.
 Print Assumptions C04_refines_sax_core.
